@@ -131,6 +131,7 @@ func ruleNewBindMax(c *Ctx) {
 		return
 	}
 	n := 0
+	slotsWhy := ""
 	var stack []ast.Node
 	ast.Inspect(fd.Body, func(nd ast.Node) bool {
 		if nd == nil {
@@ -163,7 +164,28 @@ func ruleNewBindMax(c *Ctx) {
 						}
 					}
 					if b.Op == token.LSS && selField(info, b.X, "IntBindNum") && selField(info, b.Y, "IntBindMax") {
-						below = true
+						// one free slot is enough only if no admitted kind needs two
+						if !mentionsObjNamed(info, ifs.Cond, "Complex128") {
+							below = true
+						} else {
+							slotsWhy = "IntBindNum < IntBindMax leaves one free slot, but complex128 (admitted by the same condition) occupies two"
+						}
+					}
+					if b.Op == token.LEQ && selField(info, b.Y, "IntBindMax") {
+						// IntBindNum + slots <= IntBindMax with slots == 2 exactly for complex128
+						if add, isAdd := unparen(b.X).(*ast.BinaryExpr); isAdd && add.Op == token.ADD {
+							var sid *ast.Ident
+							if selField(info, add.X, "IntBindNum") {
+								sid = identOf(add.Y)
+							} else if selField(info, add.Y, "IntBindNum") {
+								sid = identOf(add.X)
+							}
+							if sid != nil && slotsVarOK(info, fd, info.Uses[sid]) {
+								below = true
+							} else {
+								slotsWhy = "the number of slots added to IntBindNum is not 1, raised to 2 under a Complex128 test"
+							}
+						}
 					}
 				}
 				if zero && below && len(ors) == 2 {
@@ -171,7 +193,7 @@ func ruleNewBindMax(c *Ctx) {
 				}
 			}
 		}
-		c.Ob("NB1-intbindmax", "fast.Comp.NewBind/class=IntBind", as, ok2, "class IntBind is chosen only under (IntBindMax == 0 || IntBindNum < IntBindMax)")
+		c.Ob("NB1-intbindmax", "fast.Comp.NewBind/class=IntBind", as, ok2, "class IntBind is chosen only under (IntBindMax == 0 || the slots the variable needs still fit below IntBindMax)"+sep(slotsWhy))
 		return true
 	})
 	if n == 0 {
@@ -249,4 +271,112 @@ func ruleNoCellReplacement(c *Ctx, files []string, rule string) {
 	}
 	c.Ob(rule+"-detector", "fast/cell-creation-sites", nil, elsewhere >= 10, "the detector sees the legitimate cell creations of declarations and parameter binding (positive example)")
 	c.Extra(rule+"_census", map[string]int{"functions_checked": checked, "cell_creations_elsewhere": elsewhere})
+}
+
+func mentionsObjNamed(info *types.Info, n ast.Node, name string) bool {
+	f := false
+	ast.Inspect(n, func(x ast.Node) bool {
+		if e, ok := x.(ast.Expr); ok {
+			if o := usedObj(info, e); o != nil && o.Name() == name {
+				f = true
+			}
+		}
+		return !f
+	})
+	return f
+}
+
+// slotsVarOK: o is a local defined as the constant 1 and assigned the constant 2 only inside an if whose
+// condition mentions Complex128.
+func slotsVarOK(info *types.Info, fd *ast.FuncDecl, o types.Object) bool {
+	if o == nil {
+		return false
+	}
+	one, two, other := false, false, false
+	var stack []ast.Node
+	ast.Inspect(fd.Body, func(n ast.Node) bool {
+		if n == nil {
+			stack = stack[:len(stack)-1]
+			return true
+		}
+		stack = append(stack, n)
+		as, ok := n.(*ast.AssignStmt)
+		if !ok || len(as.Lhs) != 1 || len(as.Rhs) != 1 || identOf(as.Lhs[0]) == nil {
+			return true
+		}
+		lo := info.Defs[identOf(as.Lhs[0])]
+		if lo == nil {
+			lo = info.Uses[identOf(as.Lhs[0])]
+		}
+		if lo != o {
+			return true
+		}
+		v, isC := constInt(info, as.Rhs[0])
+		switch {
+		case isC && v == 1 && as.Tok == token.DEFINE:
+			one = true
+		case isC && v == 2 && as.Tok == token.ASSIGN:
+			guarded := false
+			for _, a := range stack {
+				if ifs, ok := a.(*ast.IfStmt); ok && containsNode(ifs.Body, as) && mentionsObjNamed(info, ifs.Cond, "Complex128") {
+					guarded = true
+				}
+			}
+			if guarded {
+				two = true
+			} else {
+				other = true
+			}
+		default:
+			other = true
+		}
+		return true
+	})
+	return one && two && !other
+}
+
+// rulePrepareBeforeCompile (PE2): the limit on unboxed slots is published before compiling, not only after: the
+// address of a slot is taken at run time, so the first compilation that follows must already see IntBindMax.
+func rulePrepareBeforeCompile(c *Ctx) {
+	pk := c.P.Pkg("fast")
+	info := pk.TypesInfo
+	fd := c.P.Func("fast.Interp.CompileAst")
+	if fd == nil || fd.Body == nil {
+		c.Ob("PE2-publish-before-compile", "fast.Interp.CompileAst", nil, false, "anchor function not found")
+		return
+	}
+	var compilePos, pubPos token.Pos
+	inspectCalls(fd.Body, func(call *ast.CallExpr) {
+		if funcFullName(calleeOf(info, call)) == "fast.Comp.Compile" {
+			compilePos = call.Pos()
+		}
+	})
+	for _, st := range fd.Body.List {
+		ifs, ok := st.(*ast.IfStmt)
+		if !ok {
+			continue
+		}
+		taken := false
+		ast.Inspect(ifs.Cond, func(n ast.Node) bool {
+			if e, ok := n.(ast.Expr); ok {
+				if _, is := fieldSel(info, e, "IntAddressTaken"); is {
+					taken = true
+				}
+			}
+			return true
+		})
+		if !taken {
+			continue
+		}
+		for _, bs := range ifs.Body.List {
+			if as, ok := bs.(*ast.AssignStmt); ok && len(as.Lhs) == 1 && len(as.Rhs) == 1 && selField(info, as.Lhs[0], "IntBindMax") {
+				if call, ok := unparen(as.Rhs[0]).(*ast.CallExpr); ok && identOf(call.Fun) != nil && identOf(call.Fun).Name == "cap" && len(call.Args) == 1 {
+					if _, is := fieldSel(info, call.Args[0], "Ints"); is {
+						pubPos = ifs.Pos()
+					}
+				}
+			}
+		}
+	}
+	c.Ob("PE2-publish-before-compile", "fast.Interp.CompileAst", fd, compilePos != token.NoPos && pubPos != token.NoPos && pubPos < compilePos, "`if env.IntAddressTaken { c.IntBindMax = cap(env.Ints) }` precedes Comp.Compile: the statement compiled right after an address was taken already respects the limit")
 }
